@@ -72,6 +72,102 @@ fn v1_decrypt(sym: u8, key: &[u8], mode: u8, max: usize, ct: &[u8], src: &[usize
     match r { Ok(Ok(s)) => s, Ok(Err(_)) => "ERR -".into(), Err(p) => p }
 }
 
+
+// ------------------------------------------------------------------ Message level
+
+/// password-encrypted message around a literal packet of `data` (v2: SEIPDv2 OCB, 64-octet chunks)
+fn msg_build(v2: bool, sym: u8, data: &[u8], seed: u64) -> Option<Vec<u8>> {
+    use pgp::composed::MessageBuilder;
+    use pgp::types::{Password, StringToKey};
+    let pw = Password::from("c03 message");
+    let s2k = StringToKey::Salted { hash_alg: pgp::crypto::hash::HashAlgorithm::Sha256, salt: [7u8; 8] };
+    guarded(|| {
+        if v2 { let mut b = MessageBuilder::from_bytes("", data.to_vec()).seipd_v2(Rng::new(seed), sym_of(sym), AeadAlgorithm::Ocb, ChunkSize::C64B); b.encrypt_with_password(Rng::new(seed ^ 3), s2k, &pw).ok()?; b.to_vec(Rng::new(seed ^ 2)).ok() }
+        else { let mut b = MessageBuilder::from_bytes("", data.to_vec()).seipd_v1(Rng::new(seed), sym_of(sym)); b.encrypt_with_password(s2k, &pw).ok()?; b.to_vec(Rng::new(seed ^ 2)).ok() }
+    }).ok().flatten()
+}
+
+/// "OK <payload>" when decrypting and reading to the end ends cleanly, "ERR <released payload>" otherwise
+fn msg_read(msg: &[u8], mode: u8, consumer: u8, reqs: &[usize]) -> String {
+    use pgp::composed::{DecryptionOptions, Message, TheRing};
+    use pgp::types::{Password, Seipdv1ReadMode};
+    let r = guarded(|| -> Result<String, String> {
+        let pw = Password::from("c03 message");
+        let m = Message::from_bytes(msg).map_err(|e| e.to_string())?;
+        let rm = if mode == 0 { Seipdv1ReadMode::CheckFirst { max_message_size: 1 << 30 } } else { Seipdv1ReadMode::Streaming };
+        let ring = TheRing { message_password: vec![&pw], decrypt_options: DecryptionOptions::new().set_seipdv1_read_mode(rm), ..Default::default() };
+        let (mut m, _) = m.decrypt_the_ring(ring, true).map_err(|e| e.to_string())?;
+        let (out, res) = match consumer {
+            0 => consume_to_end(&mut m),
+            1 => consume_read(&mut m, reqs),
+            _ => consume_bufread(&mut m, reqs),
+        };
+        Ok(match res { Ok(()) => format!("OK {}", hx(&out)), Err(_) => format!("ERR {}", hx(&out)) })
+    });
+    match r { Ok(Ok(s)) => s, Ok(Err(_)) => "ERR -".into(), Err(p) => p }
+}
+
+/// (offset of the body, end) of the first packet with this type in a sequence of new-format, fixed-length packets
+fn find_packet(msg: &[u8], typ: u8) -> Option<(usize, usize)> {
+    let mut o = 0usize;
+    while o + 2 <= msg.len() && msg[o] & 0xC0 == 0xC0 {
+        let (hl, bl) = match msg[o + 1] { l @ 0..=191 => (2, l as usize), l @ 192..=223 if o + 3 <= msg.len() => (3, ((l as usize - 192) << 8) + msg[o + 2] as usize + 192), 255 if o + 6 <= msg.len() => (6, u32::from_be_bytes([msg[o + 2], msg[o + 3], msg[o + 4], msg[o + 5]]) as usize), _ => return None };
+        if msg[o] & 0x3F == typ { return (o + hl + bl <= msg.len()).then_some((o + hl, o + hl + bl)); }
+        o += hl + bl;
+    }
+    None
+}
+
+/// the same packet with another body (new-format header, minimal length)
+fn reframe(msg: &[u8], body_at: (usize, usize), body: &[u8]) -> Vec<u8> {
+    let mut start = body_at.0; // walk back to the packet's first octet
+    for hl in [2usize, 3, 6] { if body_at.0 >= hl && msg[body_at.0 - hl] & 0xC0 == 0xC0 && msg[body_at.0 - hl] & 0x3F == 18 { start = body_at.0 - hl; break; } }
+    let mut v = msg[..start].to_vec();
+    v.push(0xC0 | 18);
+    let n = body.len();
+    if n < 192 { v.push(n as u8); } else if n < 8384 { v.push(((n - 192) >> 8) as u8 + 192); v.push(((n - 192) & 0xff) as u8); } else { v.push(255); v.extend_from_slice(&(n as u32).to_be_bytes()); }
+    v.extend_from_slice(body);
+    v.extend_from_slice(&msg[body_at.1..]);
+    v
+}
+
+struct MsgCase { v2: bool, sym: u8, n: usize, seed: u64, data: Vec<u8>, msg: Vec<u8>, bs: usize, be: usize }
+
+impl MsgCase {
+    fn new(v2: bool, sym: u8, n: usize, seed: u64) -> Option<Self> {
+        let data = Rng::new(seed ^ 0x5eed).bytes(n);
+        let msg = msg_build(v2, sym, &data, seed)?;
+        let (bs, be) = find_packet(&msg, 18)?;
+        Some(MsgCase { v2, sym, n, seed, data, msg, bs, be })
+    }
+    fn changed(&self, what: &str) -> Vec<u8> {
+        let p: Vec<&str> = what.split(':').collect();
+        let num = |i: usize| -> usize { p.get(i).and_then(|x| x.parse().ok()).unwrap_or(0) };
+        let body = &self.msg[self.bs..self.be];
+        match p[0] {
+            "flip" => { let mut v = self.msg.clone(); v[self.bs + num(1)] ^= 1 << (num(2) % 8); v }
+            "trunc" => reframe(&self.msg, (self.bs, self.be), &body[..num(1).min(body.len())]),
+            "append" => { let mut b2 = body.to_vec(); b2.extend(Rng::new(self.seed ^ 0xadd).bytes(num(1))); reframe(&self.msg, (self.bs, self.be), &b2) }
+            "cut" => self.msg[..num(1).min(self.msg.len())].to_vec(),
+            _ => self.msg.clone(),
+        }
+    }
+    /// (what was observed, does the property hold on it)
+    fn run(&self, what: &str, mode: u8, consumer: u8, reqs: &[usize]) -> (String, bool) {
+        let tampered = what != "intact";
+        let imp = msg_read(&self.changed(what), mode, consumer, reqs);
+        let truth = &self.data;
+        let pred = if !tampered { imp == format!("OK {}", hx(truth)) }
+            else if let Some(rel) = imp.strip_prefix("ERR ") {
+                // default SEIPDv1 mode: nothing released; SEIPDv2: a prefix of the payload; streaming SEIPDv1: an error, whatever came before
+                if self.v2 { let rel = if rel == "-" { vec![] } else { unhx(rel) }; rel.len() <= truth.len() && truth[..rel.len()] == rel[..] }
+                else if mode == 0 { rel == "-" || rel.is_empty() } else { true }
+            } else { false };
+        let shown = if imp.len() > 60 { format!("{}.. ({} hex digits; payload {} octets)", &imp[..60], imp.len() - 3.min(imp.len()), truth.len()) } else { imp.clone() };
+        (format!("{what} {shown}"), pred)
+    }
+}
+
 fn key_len(sym: u8) -> usize { match sym { 1 | 3 | 4 | 7 | 11 => 16, 2 | 8 | 12 => 24, _ => 32 } }
 fn blk_len(sym: u8) -> usize { match sym { 7..=13 => 16, _ => 8 } }
 
@@ -121,8 +217,9 @@ impl Ctx {
         } else {
             imp.starts_with("ERR ") // streaming: never a clean end
         };
-        let args = vec![sym.to_string(), hx(key), mode.to_string(), max.to_string(), hx(ct)];
-        let mut rp = vec!["v1dec".to_string()]; rp.extend(args.clone());
+        // the model runs the state machine of the theorems under this consumer's own request sizes (and the one-shot specification)
+        let args = vec![sym.to_string(), hx(key), mode.to_string(), max.to_string(), hx(ct), consumer.to_string(), nums(&reqs)];
+        let mut rp = vec!["v1dec".to_string()]; rp.extend(args[..5].iter().cloned());
         rp.push(nums(&src)); rp.push(consumer.to_string()); rp.push(nums(&reqs)); rp.push(hx(truth)); rp.push((tampered as u8).to_string());
         self.out.case("v1dec", &args, &rp, &imp, Some(pred), cls);
     }
@@ -171,6 +268,38 @@ impl Ctx {
         // wrong key
         let mut k2 = key.clone(); k2[0] ^= 0x10;
         self.v1_case(sym, &k2, 0, big, &ct, &plain, true, &format!("{cls}-wrongkey"));
+    }
+
+
+    /// one message-level case, described compactly so that it can be rebuilt: (v2, sym, n, seed) give the message, `what` the change
+    fn msg_case(&mut self, m: &MsgCase, what: &str, mode: u8, cls: &str) {
+        let (_, consumer, reqs) = self.sched(64);
+        let (imp, pred) = m.run(what, mode, consumer, &reqs);
+        let rp = vec!["msgdec".to_string(), (m.v2 as u8).to_string(), m.sym.to_string(), m.n.to_string(), m.seed.to_string(), what.to_string(), mode.to_string(), consumer.to_string(), nums(&reqs)];
+        self.out.case("", &[], &rp, &imp, Some(pred), cls);
+    }
+
+    /// the whole path a user takes: Message::from_bytes, decrypt, read to the end; changes inside the encrypted container
+    fn msg_suite(&mut self, v2: bool, sym: u8, n: usize, dense: bool, cls: &str) {
+        let seed = self.rng.next();
+        let Some(m) = MsgCase::new(v2, sym, n, seed) else { self.out.case("", &[], &["msgbuild".into(), n.to_string()], "ERR build / no SEIPD packet", Some(false), cls); return; };
+        let modes: &[u8] = if v2 { &[0] } else { &[0, 1] };
+        for &mode in modes { self.msg_case(&m, "intact", mode, &format!("{cls}-intact-m{mode}")); }
+        // bit flips inside the container's body (behind its version octet)
+        let blen = m.be - m.bs;
+        let mut octets: Vec<usize> = if blen <= 140 { (1..blen).collect() } else { let mut v: Vec<usize> = (1..25).collect(); v.extend(blen - 48..blen); for _ in 0..(if dense { 200 } else { 24 }) { v.push(1 + self.rng.below(blen as u64 - 1) as usize); } v };
+        octets.sort(); octets.dedup();
+        for o in octets {
+            let bits: Vec<u8> = if blen <= 140 || dense { (0..8).collect() } else { vec![(o % 8) as u8, ((o + 3) % 8) as u8] };
+            for bit in bits { for &mode in modes { self.msg_case(&m, &format!("flip:{o}:{bit}"), mode, &format!("{cls}-bitflip-m{mode}")); } }
+        }
+        // truncation and extension of the container (its length field follows)
+        let mut cuts: Vec<usize> = vec![1, 2, blen / 2, blen.saturating_sub(23), blen.saturating_sub(22), blen.saturating_sub(21), blen.saturating_sub(16), blen.saturating_sub(2), blen - 1];
+        cuts.retain(|c| *c >= 1 && *c < blen); cuts.sort(); cuts.dedup();
+        for c in cuts { for &mode in modes { self.msg_case(&m, &format!("trunc:{c}"), mode, &format!("{cls}-truncate-m{mode}")); } }
+        for extra in [1usize, 16, 22, 23] { for &mode in modes { self.msg_case(&m, &format!("append:{extra}"), mode, &format!("{cls}-append-m{mode}")); } }
+        // the message simply cut off inside the container
+        for c in [m.bs + 1, m.bs + blen / 2, m.be - 1] { if c < m.msg.len() { for &mode in modes { self.msg_case(&m, &format!("cut:{c}"), mode, &format!("{cls}-cut-m{mode}")); } } }
     }
 
     fn v2_suite(&mut self, p: &V2, n: usize, exhaustive_flips: bool, cls: &str) {
@@ -255,6 +384,13 @@ fn main() {
             let mut args = p.args(); args.push(hx(&ct));
             cx.out.case("v2dec", &args, a, &imp, Some(pred), "replay");
         }
+        if a[0] == "msgdec" && a.len() >= 9 {
+            let pn = |s: &str| -> Vec<usize> { if s == "_" { vec![] } else { s.split(',').map(|x| x.parse().unwrap()).collect() } };
+            if let Some(m) = MsgCase::new(a[1] == "1", a[2].parse().unwrap(), a[3].parse().unwrap(), a[4].parse().unwrap()) {
+                let (imp, pred) = m.run(&a[5], a[6].parse().unwrap(), a[7].parse().unwrap(), &pn(&a[8]));
+                cx.out.case("", &[], a, &imp, Some(pred), "replay");
+            }
+        }
         if a[0] == "v1dec" {
             let pn = |s: &str| -> Vec<usize> { if s == "_" { vec![] } else { s.split(',').map(|x| x.parse().unwrap()).collect() } };
             let (sym, key, mode, max, ct) = (a[1].parse::<u8>().unwrap(), unhx(&a[2]), a[3].parse::<u8>().unwrap(), a[4].parse::<usize>().unwrap(), unhx(&a[5]));
@@ -263,7 +399,8 @@ fn main() {
             let tampered = a[10] == "1";
             let over = mode == 0 && ct.len() > blk_len(sym) + 2 + max;
             let pred = if !tampered && !over { imp == format!("OK {}", hx(&truth)) } else if mode == 0 { imp == "ERR -" } else { imp.starts_with("ERR ") };
-            cx.out.case("v1dec", &a[1..6].to_vec(), a, &imp, Some(pred), "replay");
+            let mut margs = a[1..6].to_vec(); margs.push(a[7].clone()); margs.push(a[8].clone());
+            cx.out.case("v1dec", &margs, a, &imp, Some(pred), "replay");
         }
         cx.out.finish();
         return;
@@ -279,6 +416,18 @@ fn main() {
             cx.v1_suite(sym, n, exhaustive, "v1");
         }
         firstv1 = false;
+    }
+    // the path a user takes: Message::from_bytes -> decrypt -> read to the end, both SEIPDv1 read modes.
+    // literal packet = header (2 | 3 | 6) + 6 + n octets; the stream decryptor works in 8192-octet buffers and holds 22 back
+    {
+        let lens: Vec<usize> = if thorough { let mut v = vec![0usize, 1, 13, 50, 180, 190, 8000]; v.extend(8150..8200); v.extend(16320..16336); v.extend(16360..16376); v.extend([24500, 24510, 24576 - 12, 40000]); v }
+                               else { vec![0, 13, 50, 8159, 8160, 8161, 8162, 8163, 8183, 8184, 16327, 16328, 16329, 16372] };
+        for (i, n) in lens.iter().enumerate() {
+            let sym = [9u8, 7, 8, 2, 13][i % 5];
+            cx.msg_suite(false, sym, *n, thorough && i % 7 == 0, "msg-v1");
+        }
+        let lens2: Vec<usize> = if thorough { vec![0, 1, 49, 50, 51, 64, 100, 113, 114, 115, 128, 1000, 8161] } else { vec![0, 50, 51, 114, 1000] };
+        for (i, n) in lens2.iter().enumerate() { cx.msg_suite(true, [9u8, 7, 8][i % 3], *n, false, "msg-v2"); }
     }
     // every cipher x mode pair, small chunk sizes, lengths around 0,1,2,3 chunk boundaries
     let css: &[u8] = if thorough { &[0, 1, 2, 3, 4, 6] } else { &[0, 1] };
